@@ -52,7 +52,7 @@ type schemaType struct {
 	Oname   schemaName    `json:"oname"`
 	Fields  []schemaField `json:"fields,omitempty"`
 	Options []string      `json:"options,omitempty"`
-	Info    []string      `json:"info,omitempty"` // info keys attached to every enum option (value "v-<key>")
+	Info    [][]string    `json:"info,omitempty"` // <key, value atom> pairs of the info map attached to every enum option
 	Item    *schemaType   `json:"item,omitempty"`
 }
 
@@ -89,7 +89,7 @@ type schemaDecl struct {
 	Fields   []schemaField   `json:"fields,omitempty"`
 	Nested   []schemaDecl    `json:"nested,omitempty"`
 	Options  []string        `json:"options,omitempty"`
-	Info     []string        `json:"info,omitempty"` // info keys attached to every enum option (value "v-<key>")
+	Info     [][]string      `json:"info,omitempty"` // <key, value atom> pairs of the info map attached to every enum option
 	Unspec   bool            `json:"unspec,omitempty"`
 	Prefix   string          `json:"prefix,omitempty"`
 	BasePath string          `json:"basePath,omitempty"`
@@ -144,16 +144,48 @@ func (p *j5sPrinter) line(format string, a ...any) {
 	p.sb.WriteByte('\n')
 }
 
+// infoValue concretises a value atom of the specification: option values "range over strings needing escapes" (C05)
+func infoValue(atom string) string {
+	switch atom {
+	case "quote":
+		return `say "hi" \ there 'q'`
+	case "astral":
+		return "ok \U0001F600 and \U00010348"
+	case "ctl":
+		return "tab\there \x01 \x7f nl\nline"
+	case "bmp":
+		return "\u00e9 \u00fc \u6f22 \u2028 end"
+	case "empty":
+		return ""
+	}
+	return "v-" + atom
+}
+
+// bclQuote writes a BCL string literal: the only escapes are \\, \" and an escaped line break
+func bclQuote(v string) string {
+	var sb strings.Builder
+	sb.WriteByte('"')
+	for _, r := range v {
+		switch r {
+		case '\\', '"', '\n':
+			sb.WriteByte('\\')
+		}
+		sb.WriteRune(r)
+	}
+	sb.WriteByte('"')
+	return sb.String()
+}
+
 // enumOption prints one enum option; info keys become the option's info map (P schema.proto Enum.Option.info)
-func (p *j5sPrinter) enumOption(name string, info []string) {
+func (p *j5sPrinter) enumOption(name string, info [][]string) {
 	if len(info) == 0 {
 		p.line("option %s", name)
 		return
 	}
 	p.line("option %s {", name)
 	p.ind++
-	for _, k := range info {
-		p.line("info.%s = %q", k, "v-"+k)
+	for _, kv := range info {
+		p.line("info.%s = %s", kv[0], bclQuote(infoValue(kv[1])))
 	}
 	p.ind--
 	p.line("}")
